@@ -31,6 +31,7 @@ type pScript struct {
 	abandonAt  int          // iterate: Close after this many outputs (-1: read to the end)
 	preCancel  map[int]bool // iterate: Next call indices made with an already-cancelled context (then retried)
 	asProp     string       // attribute output violations of this execution to this property
+	reduceFail int          // reduce: the reduction callback fails on this call (0: never)
 	deadlineAt map[int]time.Duration
 }
 
@@ -44,6 +45,7 @@ type pResult struct {
 	b         *sbuild
 	failed    []error
 	srcPosAt  []map[int]int
+	reduceErr         error
 	closedAtReturn    map[*Src]int
 	spyClosedAtReturn map[*closeSpy]int
 }
@@ -222,6 +224,9 @@ func pipelineWorld(r *R) {
 			if sc.mode == "sample" {
 				sc.lastN = []int{3, 0, 1, len(X), len(X) + 1}[r.Choose(5, "sample-k")]
 			}
+			if sc.mode == "reduce" {
+				sc.reduceFail = r.Choose(len(X)+2, "reduce-fail") // 0: the callback never fails
+			}
 		}
 		return plan, sc
 	}
@@ -317,6 +322,13 @@ func pipelineExec(r *R, prog *pnode, plan *faultPlan, sc *pScript, checkLazy boo
 				break
 			}
 			ctx := root
+			if b.perCallCtx {
+				ctx = NewCtx(root, fmt.Sprintf("call%d", call))
+			}
+			b.curCtx = nil
+			if ctx != root {
+				b.curCtx = ctx
+			}
 			if sc.preCancel[call] {
 				ctx = PreCancelled(root, fmt.Sprintf("pre%d", call))
 				r.Fault("ctx_precancelled")
@@ -405,7 +417,16 @@ func pipelineExec(r *R, prog *pnode, plan *faultPlan, sc *pScript, checkLazy boo
 		res.ended = true
 	case "reduce":
 		task.Label = "stream.Reduce on " + prog.op
-		v, err := stream.Reduce(root.C, s, 0, func(acc int, x int) (int, error) { return acc*31 + x, nil })
+		ncalls := 0
+		v, err := stream.Reduce(root.C, s, 0, func(acc int, x int) (int, error) {
+			ncalls++
+			if ncalls == sc.reduceFail {
+				r.Fault("cb_error")
+				res.reduceErr = NewErr("reduceE")
+				return acc, res.reduceErr
+			}
+			return acc*31 + x, nil
+		})
 		res.retVal, res.term = []int{v}, err
 		res.ended = err == nil
 	case "sample":
@@ -478,6 +499,9 @@ func pipelineJudge(r *R, prog *pnode, res *pResult, plan *faultPlan, sc *pScript
 	if b.cbFired {
 		fired = append(fired, plan.cbErr)
 		r.Probe("fault-cb-error")
+	}
+	if res.reduceErr != nil {
+		fired = append(fired, res.reduceErr)
 	}
 	if len(plan.srcErrAt)+boolInt(plan.cbFail >= 0) > 0 && len(fired) == 0 {
 		r.Probe("fault-not-reached")
@@ -586,6 +610,8 @@ func pipelineJudge(r *R, prog *pnode, res *pResult, plan *faultPlan, sc *pScript
 	prop := "C08"
 	if sc.asProp != "" {
 		prop = sc.asProp
+	} else if b.midcallCancels > 0 {
+		prop = "C08" // a context expired while the library was inside the iterator: a fault
 	} else if faultFree || (len(plan.srcErrAt) == 0 && plan.cbFail < 0 && len(plan.transient) == 0 && len(sc.preCancel) == 0 && len(sc.deadlineAt) == 0) {
 		prop = "C07"
 	}
